@@ -4,6 +4,6 @@ LEVEL = "other"
 
 def check(rep, tier):
     from contracts import rules_complex
-    rules_complex.run(rep, tier)
+    rep.run(rules_complex.run, rep, tier)
     from contracts import rules_numeric
-    rules_numeric.run(rep, tier, only_complex=True)
+    rep.run(rules_numeric.run, rep, tier, only_complex=True)
